@@ -1177,7 +1177,7 @@ class Interp:
             return [d.name_store(tgt.id, value, state, aug or tgt)], []
         if isinstance(tgt, ast.Attribute):
             oks, excs = self.ev(tgt.value, state, ctx)
-            return [d.attr_store(ov, tgt, value, s) for ov, s in oks], excs
+            return [(d.record_store(ov, tgt.attr, value, s) if getattr(ov, "kind", None) and str(ov.kind).startswith("obj:") and hasattr(d, "record_store") else d.attr_store(ov, tgt, value, s)) for ov, s in oks], excs
         if isinstance(tgt, ast.Subscript):
             oks, excs = self.ev_seq([tgt.value, tgt.slice], state, ctx)
             outs = []
@@ -1273,6 +1273,14 @@ class Interp:
             if isinstance(ov, Const) and ov.v is None:
                 # attribute of None: AttributeError, no normal continuation
                 excs.append((Exc(ORD, "AttributeError", e.lineno), s))
+                continue
+            if getattr(ov, "kind", None) and str(ov.kind).startswith("obj:") and hasattr(self.dom, "record_load"):
+                # an instance of a small record class of the package (exact-collection domains): its field
+                v, missing = self.dom.record_load(ov, e.attr, s)
+                if missing:
+                    excs.append((Exc(ORD, "AttributeError", e.lineno), s))
+                else:
+                    out.append((v, s))
                 continue
             out.append((self.dom.attr_load(ov, e, s), s))
             if self.dom.attr_may_raise and not (isinstance(e.value, ast.Name) and e.value.id == "self"):
@@ -1455,6 +1463,8 @@ class Interp:
             res = None
             if isinstance(fval, LambdaV) and not any(isinstance(a, ast.Starred) for a in e.args):
                 res = self.dom.apply_lambda(e, fval, args, kwargs, s)
+            if res is None and fval is TOP and isinstance(e.func, ast.Name) and hasattr(self.dom, "instantiate") and self.prog is not None and e.func.id in self.prog.classes:
+                res = self.dom.instantiate(e, self.prog.classes[e.func.id], args, kwargs, s)
             if res is None:
                 res = self.dom.call(e, fval, args, kwargs, s)
             for r in res:
